@@ -157,7 +157,7 @@ impl StateCheck for C18 {
         compare_components(&c, &c2, "components -> text -> components", out);
         // component sets reached through a history of library calls (part of the file read, a component pushed, normalized
         // again; normalized twice) survive the round trip as well
-        if !self.cli {
+        {
             for v in crate::hist::variants(text, 6) {
                 let Ok(cv) = &v.comps else { continue };
                 out.evals += 1;
